@@ -6,7 +6,7 @@ import lib
 
 MANIFEST = {
  "category": "proof",
- "text": "Coq theorems: C09_quote_roundtrip (for every valid UTF-8 string of any length, the model of quoteString writes exactly one string token of the lexer model and the model of unquoteBytes gives the string back), C09_int_format_parse (FormatInt then parseInt is the identity on int64), C09_formatGB_roundtrip_partial / C09_formatGB_fraction (the text formatGB prints denotes, rounded up to MB, the amount it was printed from: all 1023 fractions by kernel computation, any integer part), C09_toposort_perm / C09_toposort_stable (the model of topoSort only rearranges calls and leaves calls that are already in dependency order where they are), C09_ast_same_sound (the validator ast_same accepts two compiled Asts only if they have the same declarations, parameters, types, help/outname strings, src, resources, retains, return bindings and top-level call, and the same calls with the same bindings, exact literal values, modifiers and modes up to a permutation under which both orders respect the dependencies). Tied to /repo on every run: quoteString, IntExp.format, formatGB (below 256 GB) and topoSort are compared with the models on exhaustive small domains plus seeded cases (extracted OCaml, and a kernel vm_compute sample); for generated programs that use every literal form, optional clause and both modifier syntaxes the real compiled Ast of src, format(src) and format(format(src)) - and of the include-expanded source mrp records for multi-file programs (diamonds, nested directories), compiled on its own - are dumped from martian's compiler and the proved validator is run on each pair; and the property is read directly on the implementation: the formatted text parses and compiles, format(format(src)) == format(src) byte for byte, EquivalentCall both ways, number / resource literals re-read to the same value, every comment inserted at element boundaries is printed exactly once, comments at arbitrary token boundaries are not lost.",
+ "text": "Coq theorems: C09_quote_roundtrip (for every valid UTF-8 string of any length, the model of quoteString writes exactly one string token of the lexer model and the model of unquoteBytes gives the string back), C09_int_format_parse (FormatInt then parseInt is the identity on int64), C09_formatGB_roundtrip_partial / C09_formatGB_fraction (the text formatGB prints denotes, rounded up to MB, the amount it was printed from: all 1023 fractions by kernel computation, any integer part), C09_toposort_perm / C09_toposort_stable (the model of topoSort only rearranges calls and leaves calls that are already in dependency order where they are), C09_literal_comments_exactly_once (the model of ArrayExp.formatNested / MapExp.format prints every comment attached to an element of a collection literal exactly once and in order, for any nesting, incl. single-element arrays inside single-element arrays), C09_ast_same_sound (the validator ast_same accepts two compiled Asts only if they have the same declarations, parameters, types, help/outname strings, src, resources, retains, return bindings and top-level call, and the same calls with the same bindings, exact literal values, modifiers and modes up to a permutation under which both orders respect the dependencies). Tied to /repo on every run: quoteString, IntExp.format, formatGB (below 256 GB) and topoSort are compared with the models on exhaustive small domains plus seeded cases (extracted OCaml, and a kernel vm_compute sample); for generated programs that use every literal form, optional clause and both modifier syntaxes the real compiled Ast of src, format(src) and format(format(src)) - and of the include-expanded source mrp records for multi-file programs (diamonds, nested directories), compiled on its own - are dumped from martian's compiler and the proved validator is run on each pair; and the property is read directly on the implementation: the formatted text parses and compiles, format(format(src)) == format(src) byte for byte, EquivalentCall both ways, number / resource literals re-read to the same value, every comment inserted at element boundaries is printed exactly once, comments at arbitrary token boundaries are not lost.",
  "note": "Partial for comments and the byte-level fixed point: lexer.go attachComments/compileComments and the printer's layout are not modelled; exactly-once / not-lost / fixed-point are checked on the implementation's bytes over generated programs only. Float printing (strconv 'g' shortest) and the float32 re-parse of formatGB's text are not modelled (oracle on the implementation). Trusted: Coq kernel; extraction cross-checked in-kernel on a sample; astdump; martian's own parser/compiler builds the Asts. Guards, each a recorded known finding: string literals whose value is not valid UTF-8 are rewritten to U+FFFD (C09_quote_invalid_utf8_refuted); the number of blank lines around a comment block that stands apart from the next element depends on source line distances, so a second format can move blank lines; a comment on the line of an empty using () block is dropped.",
  "technique": "Coq proof (induction over the string with a UTF-8 skip invariant and exhaustive byte case analysis; finite-domain vm_compute lifted with forallb_forall; permutation/stability of the sort loop by induction on fuel) + translation validation with a validator proved sound + differential correspondence + implementation-side oracle",
 }
@@ -63,6 +63,8 @@ def check(ctx, args):
             r["source"] = bytes.fromhex(f[2]).decode(errors="replace")[:6000]
         elif f[0] == "n":
             r["files"] = json.loads(bytes.fromhex(f[2]).decode())
+        elif f[0] == "k":
+            r["case"] = case_lines[i]
         elif f[0] in "qfr":
             r["input"] = bytes.fromhex(f[-1]).decode(errors="replace") if f[-1] != "-" else ""
             r["input_hex"] = f[-1]
@@ -105,7 +107,7 @@ def check(ctx, args):
         n_kernel = n_valid = 0
         for i, (c, o, m) in enumerate(zip(case_lines, impl_lines, model_lines)):
             k = c[0]
-            if k in "qio" or (k == "g" and int(c.split(" ")[1]) < 256):
+            if k in "qiok" or (k == "g" and int(c.split(" ")[1]) < 256):
                 n_kernel += 1
                 if o != m:
                     mism.append("case %s impl=%s model=%s" % (c[:60], o[:60], m[:60]))
@@ -114,7 +116,7 @@ def check(ctx, args):
                 if m != "same01=T same12=T same02=T" and i not in failed:
                     failed.add(i)
                     ctx.fail("ast-differs", m, replay(i, "validator: " + m + " (0 = source, 1 = format(source), 2 = format(format(source)); for include graphs 1 = the expanded source compiled alone)"))
-        ctx.oblige("correspondence: quoteString / IntExp.format / formatGB (< 256 GB) / topoSort == K.FormatExp.quote_string / format_int / K.FormatGB.format_gb / K.TopoSort.topo_sort on %d cases (extracted model)" % n_kernel,
+        ctx.oblige("correspondence: quoteString / IntExp.format / formatGB (< 256 GB) / topoSort / comments printed inside nested literals == K.FormatExp.quote_string / format_int / K.FormatGB.format_gb / K.TopoSort.topo_sort / K.ExpComments.fmt on %d cases (extracted model)" % n_kernel,
                    not mism and len(model_lines) == len(case_lines), "; ".join(mism[:5]))
         ctx.oblige("translation validation: ast_same run on the dumped Asts of %d accepted programs (source, formatted, re-formatted / include-expanded)" % n_valid,
                    n_valid == len(accepted), "")
@@ -136,7 +138,7 @@ def check(ctx, args):
     ctx.coverage.update({
         "evaluations": len(case_lines),
         "distinct_nontrivial": lib.distinct_count(cases, lambda l: len(l) > 8),
-        "rule": "quoteString: all 1-byte strings, all 2-byte (3-byte thorough) strings over 24 significant bytes, seeded UTF-8 and raw byte strings; ints: boundaries + seeded; formatGB: all 1024 fractions x integer parts in every float32 binade up to 8191, sampled fractions up to 2^40; topoSort: every graph up to 4 calls with at most one dependency each, seeded DAGs and cyclic graphs up to 9 calls incl. unknown ids; number literals: table of edge forms + seeded doubles in e/E/g notation + exponent sweep; resource literals; programs: random filetypes, structs, stages (split in both syntaxes, using, retain, help/outname, keyword-like names), pipelines (shuffled call order, aliases, map calls over self/literal, both modifier syntaxes, disabled, struct projections, retain), top-level call with literals of every type, two layouts (random whitespace, tidy); comments at element boundaries (F), at any token boundary (A), with empty using blocks (E); include graphs; parser-level texts (src/include strings needing quotes, token-mutated programs)",
+        "rule": "quoteString: all 1-byte strings, all 2-byte (3-byte thorough) strings over 24 significant bytes, seeded UTF-8 and raw byte strings; ints: boundaries + seeded; formatGB: all 1024 fractions x integer parts in every float32 binade up to 8191, sampled fractions up to 2^40; comments in literals: every chain of single-element array/map levels up to depth 4 with every subset of commented levels, seeded trees to depth 5, two layouts; nested-literal programs (class L) with comments before elements of every level; topoSort: every graph up to 4 calls with at most one dependency each, seeded DAGs and cyclic graphs up to 9 calls incl. unknown ids; number literals: table of edge forms + seeded doubles in e/E/g notation + exponent sweep; resource literals; programs: random filetypes, structs, stages (split in both syntaxes, using, retain, help/outname, keyword-like names), pipelines (shuffled call order, aliases, map calls over self/literal, both modifier syntaxes, disabled, struct projections, retain), top-level call with literals of every type, two layouts (random whitespace, tidy); comments at element boundaries (F), at any token boundary (A), with empty using blocks (E); include graphs; parser-level texts (src/include strings needing quotes, token-mutated programs)",
         "case_kinds": kinds, "program_classes": classes,
         "programs_accepted": len(accepted), "programs_generated": len(prog_idx),
         "oracle_ok": n_ok, "oracle_fail": n_fail, "oracle_skip": n_skip,
